@@ -364,9 +364,12 @@ static unsigned int find_next(uint8_t* bits, unsigned int max, unsigned int valu
         next_value = next_set_bit(bits, max, 0, &notfound);
     }
     if (notfound || next_value != value) {
-        err = set_field(calendar, field, next_value);
-        if (err) goto return_error;
+        /* Reset the lower order fields first: setting e.g. the month while the day of month is
+         * still 31 would be normalized by mktime into the following month (Sep 31 -> Oct 1),
+         * and the search would then skip the month it was looking for. */
         err = reset_all_min(calendar, lower_orders);
+        if (err) goto return_error;
+        err = set_field(calendar, field, next_value);
         if (err) goto return_error;
     }
     return next_value;
